@@ -319,6 +319,6 @@ func (m *Machine) concStr(v Value, what string) string {
 
 func (m *Machine) errorValue(msg string) Value {
 	ep := m.prog.ImportedPackage("errors")
-	t := types.NewPointer(ep.Type("errorString").Type())
+	t := ptrTo(ep.Type("errorString").Type())
 	return Iface{T: t, V: newCell(Struct{msg})}
 }
